@@ -1,5 +1,9 @@
 (* C20 - the MIDI dump lists every event of a compiled file at its true position.
-   Statements only; proofs are `exact <lemma>`. *)
+   Statements only; proofs are `exact <lemma>`.
+   model/Dump.v    : dump_midi and its helpers (read_delta, track_loop, dump_event, position, printers)
+   spec/DumpSpec.v : how a decoded message is shown (show_msg), the position of a tick (position_of), the
+                     lines of a track / a file (track_lines, file_lines), the tick of TIME(m:b:t) (time_of)
+   proofs/WriterP.v: enc_track (the inverse of the SMF specification decoder, C02) *)
 From Sakura.Model Require Import Base Event Writer Dump.
 From Sakura.Spec Require Import SmfSpec TrackSpec DumpSpec.
 From Sakura.Proofs Require Import VlqP WriterP DumpP.
@@ -35,6 +39,97 @@ Proof. exact position_time_of. Qed.
 Example C20_time_roundtrip_ex : position (beat_base 96 8) 6 (time_of (beat_ticks 96 8) 6 4 3 40) = (4, 3, 40).
 Proof. vm_compute. reflexivity. Qed.
 
+(* One line per item, in order, and the loop stops exactly at the end of the chunk.
+   A track body `enc_track l ++ EOT` (items l: channel messages, metas, SysEx as delimited by
+   DumpSpec.dump_msg_ok; any bytes `after` the chunk; any signature s in force, any End-of-Track flag e left by the
+   previous chunk) makes the track loop - with any fuel of at least the chunk length, dump_midi gives it the file
+   length + 1 - return the lines of the specification: the k-th line is TIME(position of the k-th item's absolute
+   tick under the signature set by the last TimeSig before it) followed by the message's fields, the last line is
+   End-of-Track; the cursor ends on the first byte after the chunk and the signature is carried on. *)
+Theorem C20_lines : forall (tb : Z) (l : list (Z * msg)) (fuel : nat) (s : Z * Z) (e : bool) (pos t0 : Z) (after : list Z),
+  Forall (dump_item_ok tb) l -> sig_ok tb s -> (length (enc_track l ++ EOT) <= fuel)%nat ->
+  0 <= t0 -> t0 + total_delta l < 2 ^ 64 ->
+  track_loop fuel tb (mkInfo (fst s) (snd s) e) pos (pos + zlen (enc_track l ++ EOT)) t0 (enc_track l ++ EOT ++ after)
+  = let '(lines, s') := track_lines (mkPrinters dec dec3 hex2 HEX2 decode_text) tb s t0 (l ++ [EOTmsg]) in
+    Ok (lines, mkInfo (fst s') (snd s') true, pos + zlen (enc_track l ++ EOT), after).
+Proof. exact track_loop_lines. Qed.
+
+(* The whole file, for everything the writer model produces (Writer.generate_sorted; C02 shows its tracks decode to
+   TrackSpec.wire): the dump terminates (no panic, no exhausted fuel) and is the header followed, track by track
+   in file order, by one line per message of the track and its End-of-Track. *)
+Theorem C20_file : forall (tb : Z) (tracks : list (list event)) (bin : list Z),
+  0 < tb < 65536 -> zlen tracks < 65536 ->
+  Forall (fun evs => forallb event_ok evs = true) tracks ->
+  Forall (fun evs => Forall (dump_item_ok tb) (wire 0 evs) /\ total_delta (wire 0 evs) < 2 ^ 64) tracks ->
+  generate_sorted tb tracks = Ok bin -> zlen bin < 2 ^ 32 ->
+  dump_midi bin
+  = Ok (file_header (mkPrinters dec dec3 hex2 HEX2 decode_text) (zlen tracks) tb
+        ++ file_lines (mkPrinters dec dec3 hex2 HEX2 decode_text) tb (4, 4) 0
+             (map (fun evs => wire 0 evs ++ [EOTmsg]) tracks)).
+Proof. exact dump_generate. Qed.
+
+(* the position the lines show is the position of the specification (measure first) *)
+Theorem C20_position_spec : forall tb num den t : Z, 0 < num -> 0 < beat_ticks tb den -> 0 <= t ->
+  position (beat_base tb den) num t = position_of tb num den t.
+Proof. exact position_eq. Qed.
+
+(* the printers used in the lines: `{}` / `{:03}` print the decimal digits of the number (at least three for
+   {:03}), `{:02x}` / `{:02X}` the two hexadecimal digits of a byte *)
+Theorem C20_printers : forall n : Z, 0 <= n ->
+  (digits_value 10 dec_digit (dec n) = n /\ Forall (fun c => 48 <= c <= 57) (dec n)) /\
+  (digits_value 10 dec_digit (dec3 n) = n /\ (3 <= length (dec3 n))%nat /\ (1000 <= n -> dec3 n = dec n)) /\
+  (n <= 255 -> digits_value 16 hex_digit_value (hex2 n) = n /\ digits_value 16 hex_digit_value (HEX2 n) = n /\
+               length (hex2 n) = 2%nat /\ length (HEX2 n) = 2%nat).
+Proof.
+  intros n H. unfold dec. replace (n <? 0) with false by lia.
+  split; [exact (dec_nat_value n H)|]. split; [exact (dec3_spec n H)|]. intros H2. apply hex2_value. lia.
+Qed.
+
+(* non-vacuity: two tracks with every covered kind of message, a 6/8 signature, deltas 0x7F and 0x80; the
+   hypotheses hold and the dump of the generated file is evaluated *)
+Definition ex_tracks : list (list event) :=
+  [ [ev_meta 0 255 88 4 [6; 3; 24; 8]; ev_meta 0 255 81 3 [7; 161; 32]; ev_meta 0 255 3 2 [65; 66];
+      ev_voice 0 3 40; ev_cc 127 3 7 100; ev_note 255 3 60 90 100; ev_pitch_bend 400 3 8192;
+      ev_sysex_raw 400 [240; 126; 127; 9; 1; 247]; ev_pitch_bend_range 400 3 12];
+    [ev_note 1000 0 64 128 127] ].
+Example C20_file_ex :
+  0 < 96 < 65536 /\ zlen ex_tracks < 65536 /\
+  Forall (fun evs => forallb event_ok evs = true) (map normalize_and_sort ex_tracks) /\
+  Forall (fun evs => Forall (dump_item_ok 96) (wire 0 evs) /\ total_delta (wire 0 evs) < 2 ^ 64)
+         (map normalize_and_sort ex_tracks) /\
+  match generate_sorted 96 (map normalize_and_sort ex_tracks) with
+  | Ok bin => zlen bin < 2 ^ 32 /\
+              match dump_midi bin with Ok ls => length ls = 25%nat | _ => False end
+  | _ => False
+  end.
+Proof.
+  split; [lia|]. split; [vm_compute; reflexivity|]. split; [repeat constructor|].
+  split.
+  - vm_compute wire. vm_compute total_delta.
+    repeat constructor; cbn [fst snd dump_msg_ok]; unfold chan_ok, seven, is_byte; try lia;
+      try (intros Hd; first [discriminate Hd | eauto 8]);
+      try (exists [126; 127; 9; 1]; split; [reflexivity | repeat constructor; unfold seven; lia]).
+    exists 6, 3, [24; 8]. repeat split; try lia. vm_compute. reflexivity.
+  - vm_compute. split; reflexivity.
+Qed.
+
+Example C20_lines_ex :
+  let l := [(0, MMeta 88 [3; 2; 24; 8]); (127, MNoteOn 0 60 100); (128, MNoteOff 0 60 0)] in
+  Forall (dump_item_ok 480) l /\ sig_ok 480 (4, 4) /\
+  track_loop 30 480 (mkInfo 4 4 false) 22 (22 + zlen (enc_track l ++ EOT)) 0 (enc_track l ++ EOT ++ [77])
+  = let '(lines, s') := track_lines (mkPrinters dec dec3 hex2 HEX2 decode_text) 480 (4, 4) 0 (l ++ [EOTmsg]) in
+    Ok (lines, mkInfo (fst s') (snd s') true, 22 + zlen (enc_track l ++ EOT), [77]).
+Proof.
+  cbv zeta. split; [|split; [|vm_compute; reflexivity]].
+  - repeat constructor; cbn [fst snd dump_msg_ok]; unfold chan_ok, seven, is_byte; try lia; try discriminate.
+    intros _. exists 3, 2, [24; 8]. repeat split; try lia. vm_compute. reflexivity.
+  - unfold sig_ok, beat_ticks. cbn [fst snd]. lia.
+Qed.
+
 Print Assumptions C20_vlq_reader.
 Print Assumptions C20_position.
 Print Assumptions C20_time_roundtrip.
+Print Assumptions C20_lines.
+Print Assumptions C20_file.
+Print Assumptions C20_position_spec.
+Print Assumptions C20_printers.
